@@ -29,6 +29,7 @@ Proof.
     try (destruct (l_required f); discriminate);
     destruct (l_kind f) as [lo hi|mn mx lw st| | |]; try discriminate; try apply inst_validate_bool_plain;
     try (destruct (in_bounds lo hi z); discriminate).
+  - destruct fl; try discriminate; destruct (in_bounds lo hi _); discriminate.
   - destruct (ci_int_of_str s) eqn:E; try discriminate; [destruct (in_bounds lo hi a); discriminate|].
     apply ci_int_of_str_err in E. subst. discriminate.
   - destruct (l_required f && _); [discriminate|]. destruct (lw && _); [discriminate|].
@@ -135,6 +136,8 @@ Proof.
     try (intro H; right; eapply validate_bool_is_bool; eauto; fail);
     try (intro H; right; exact I).
   - destruct (in_bounds lo hi z) eqn:E; [|discriminate]. intro H; inversion H; subst. right. exists z. split; [reflexivity | exact E].
+  - destruct fl; try discriminate;
+      (destruct (in_bounds lo hi _) eqn:E; [|discriminate]; intro H; inversion H; subst; right; eexists; split; [reflexivity | exact E]).
   - destruct (ci_int_of_str s) as [z| |]; try discriminate.
     destruct (in_bounds lo hi z) eqn:E; [|discriminate]. intro H; inversion H; subst. right. exists z. split; [reflexivity | exact E].
   - set (s1 := if st then strip_ws s else s).
